@@ -350,9 +350,14 @@ func EngineBuiltForEveryInput(p *core.Program, r *core.Report, rule string) {
 	w := facts.NewWalker(info)
 	w.Transfer = func(st int, nd ast.Node, f facts.Formula) int {
 		if c, ok := nd.(*ast.CallExpr); ok {
-			if fn := core.Callee(info, c); fn != nil && core.RefName(fn) == "getPolicyEngine" {
-				seen = true
-				return 1
+			// the engine is built: through getPolicyEngine, or (when that was inlined) by the constructors themselves. With
+			// the exposure option the engine is created empty first and then fed; only the feeding call counts there.
+			if fn := core.Callee(info, c); fn != nil {
+				switch core.RefName(fn) {
+				case "getPolicyEngine", "NewPolicyEngineWithObjects", "AddObjectsForExposureAnalysis":
+					seen = true
+					return 1
+				}
 			}
 		}
 		return st
@@ -776,6 +781,7 @@ func RepresentativePairExclusionTable(p *core.Program, r *core.Report, rule stri
 	w.Atomize = PeerTypeAtomizer(info)
 	w.Inline = true
 	n := 0
+	absorbed := core.RefName(fd.Obj) != "includePairWithRepresentativePeer"
 	w.OnExit = func(st int, ret *ast.ReturnStmt, f facts.Formula) {
 		if w.FuncLitDepth > 0 || ret == nil || len(ret.Results) != 1 {
 			return
@@ -804,6 +810,19 @@ func RepresentativePairExclusionTable(p *core.Program, r *core.Report, rule stri
 		}
 		if !facts.Satisfiable(f) {
 			return
+		}
+		if absorbed {
+			// the dedicated function is gone (inlined into its caller, which also applies filters that have nothing to do with
+			// representative peers): the rule covers the answers given because exposure analysis is on
+			under := false
+			for _, a := range facts.Atoms(f) {
+				if strings.HasPrefix(a, "b:") && strings.HasSuffix(facts.StripVersions(a), ".exposureAnalysis") && facts.Entails(f, facts.Atom(a)) {
+					under = true
+				}
+			}
+			if !under {
+				return
+			}
 		}
 		n++
 		c := fmt.Sprintf("%s: negative answer `return %s` is given only in the three documented cases", fd.Key(), core.Stable(info, ret.Results[0]))
